@@ -159,6 +159,7 @@ struct Outcome {
   int forwards = 0;
   int skipped = 0;
   int executed = 0;
+  uint32_t lsteps[vsched::kMaxT] = {};  // local step counts of the program's threads (main phase)
   int excluded_known = 0;  // hook points left inert (stalls inside the node walk are excluded: KF-C17-WALK)
 };
 
